@@ -1,6 +1,7 @@
 """C07 - hybrid loads retain each month's peaks with positive, bounded durations (decidable part)."""
 from symx.runner import Unit
 
+from . import c07_duration as DUR
 from . import hybrid_common as HC
 
 PROPERTY = 'C07'
@@ -9,15 +10,17 @@ EXPLANATION = ('Decidable part: in peak-retention months each non-zero peak yiel
                'meeting at noon when both non-zero peaks fall on the same day); every other segment carries the month\'s average; months '
                'in between carry a single average segment; a month without load in a direction gets no pulse and a degenerate duration; '
                'monthly peak and peak day equal those of the raw profile (first occurrence); the 48 h window handed to the peak simulation '
-               'is the day before and the day of the peak (31 December for 1 January).')
-OUTSIDE = ('that the duration computed by perform_current_month_simulation lies in (0,48] and equals the Cullin-Spitler equivalence: '
-           'it is the inverse (extrapolating) interpolation of a response built from the numerically computed short-time g-function; '
-           'not encodable - the stub returns an arbitrary value in (0,48].')
+               'is the day before and the day of the peak (31 December for 1 January). Duration units (dur_*): the real find_peak_durations, '
+               'perform_current_month_simulation and simulate_hourly run on a raw profile with a symbolic peak or previous-day load and the '
+               'concrete g-function of a real borehole; interp1d by contract; every reported duration is finite, positive and at most 48 h.')
+OUTSIDE = ('the Cullin-Spitler equality itself (numerical g_sts): in the pulse units the duration is a stub value in (0,48]. The bound 0 < duration <= 48 h '
+           'is decided separately by the dur_* units for concrete short-time responses of real boreholes and one symbolic load magnitude per '
+           'unit (catalogue of positions); other load shapes and boreholes are outside the claim.')
 KEYS = ['pulses']
 
 
 def units(tier, seed):
-    us = HC.l1_units(KEYS, tier, None, pairs=False) + HC.l2_units(KEYS, tier, seed) + HC.window_units(tier)
+    us = HC.l1_units(KEYS, tier, None, pairs=False) + HC.l2_units(KEYS, tier, seed) + HC.window_units(tier) + DUR.units(tier)
     us.append(Unit('twin_reachability', HC.l1_fn(12, (2,), 'mixed', KEYS, twin=True), None, HC.setup, HC.FUNCS_L1,
                    'assert False must be violated', expect_cex=True))
     return us
